@@ -395,6 +395,25 @@ def run_impl(td, op, spelling=0, limit=5.0):
     return ["ok", canon(r)], r
 
 
+def run_impl_tc(spec, op, spelling=0, lock=False):
+    """the same call on a TENSORCLASS holding the same tree, in the model's canonical form (a tensorclass delegates to the TensorDict
+    code, so the dense model is its model too); an expired limit is Infra here, never a verdict"""
+    cont = tc_class()._from_tensordict(build(spec))
+    if lock:
+        cont.lock_()
+    try:
+        with time_limit(60.0):
+            r = call(cont, op, spelling)
+    except Exception as e:  # noqa: BLE001
+        slow_is_infra(e)
+        return ["err", err_class(e)]
+    if r is cont or getattr(r, "_tensordict", None) is cont._tensordict:
+        return ["self"]       # (the tensorclass wrapper re-wraps a `return self` of the tensordict it holds)
+    if isinstance(r, (tuple, list)):
+        return ["oks"] + [canon(densify(x)) for x in r]
+    return ["ok", canon(densify(r))]
+
+
 def torch_answer(op, shape):
     """torch on an arange tensor of `shape`, in the canonical form of the `c02.torch` command"""
     t = torch.arange(numel(shape), dtype=torch.int64).reshape(shape)
@@ -792,12 +811,12 @@ class ClassMismatch(Exception):
     """the result of stack / cat over tensorclass operands has the wrong class (the first operand decides)"""
 
 
-def oracle_ext(run, kind, specs, args, site="shape_op_ext", container=None, rng=None):
+def oracle_ext(run, kind, specs, args, site="shape_op_ext", container=None, rng=None, stack_dim=None, valid_call=False):
     """container in {None, 'tc', 'lazy'}: single-operand kinds on a tensorclass (delegates to the TensorDict code: same site as the
     dense ops) or on a lazy stack (own implementation in _lazy.py: a refusal is not judged, only a wrong result / non-termination)"""
     n = len(specs[0][1])
     if container is not None:
-        cont, sp = build_container(specs[0], container, rng)
+        cont, sp = build_container(specs[0], container, rng, stack_dim)
         if cont is None:
             return
         specs = [sp]
@@ -917,6 +936,10 @@ def oracle_ext(run, kind, specs, args, site="shape_op_ext", container=None, rng=
     if ierr is not None and container == "lazy":
         if isinstance(ierr, TimeoutError):
             run.oracle_fail(site, case, "does not terminate", f"{pfx}{kind}:timeout")
+        elif valid_call and terr is None:
+            # the argument grid: the call is valid for a tensor of that batch shape
+            what = kind + (":tensor-repeats" if kind == "repeat_interleave" and isinstance(args[0], torch.Tensor) else "")
+            run.oracle_fail(site, case, f"lazy stack refuses a valid call: {type(ierr).__name__}: {str(ierr)[:100]}", f"lazy-grid:{pfx}{what}:rejects-valid:{type(ierr).__name__}")
         else:
             run.count(site + ".refused", kind)
         return
